@@ -55,6 +55,10 @@ CUSTOM = {
                     "SELECTED_OUTPUT 1\n -reset false\n -user_punch true\nADVECTION\n -cells 4\n -shifts 6\n -time_step 100\n -punch_cells 1-4\n -print_cells 2 4\n -print_frequency 3\nEND\n"),
     "w_mix_basic": ("basic", SOLS + "SOLUTION 2 second water\n K 2\n Cl 2\nEND\nMIX 3\n 1 0.4\n 2 0.6\nUSER_PUNCH 1\n -headings d m na\n -start\n 10 PUNCH DESCRIPTION, MISC1(\"x\"), TOT(\"Na\")\n -end\n"
                     "SELECTED_OUTPUT 1\n -reset false\n -user_punch true\nSAVE solution 0\nEND\nTRANSPORT\n -cells 2\n -shifts 2\nEND\n"),
+    # fields of 4096 characters: the formatting helpers switch from a stack buffer to a heap buffer at 2048 (used by C06 only)
+    "w_longpunch": ("basic", SOLS + "USER_PUNCH 1\n -headings long n\n -start\n 10 a$ = \"abcdefgh\"\n 20 FOR i = 1 TO 9\n 30 a$ = a$ + a$\n 40 NEXT i\n 50 PUNCH a$, LEN(a$)\n -end\n"
+                    "USER_PRINT\n -start\n 10 b$ = \"0123456789\"\n 20 FOR i = 1 TO 8\n 30 b$ = b$ + b$\n 40 NEXT i\n 50 PRINT b$\n -end\n"
+                    "SELECTED_OUTPUT 1\n -reset false\n -user_punch true\nEND\nUSE solution 1\nREACTION 1\n NaCl 1\n 0.1 0.2 0.3 mmol\nEND\n"),
     "w_sorted": ("speciation", "PRINT\n -species true\n -saturation_indices true\nSOLUTION 1\n pH 8\n Na 10\n Cl 10\n Ca 2\n Mg 1\n C 3\n S(6) 1\n K 0.5\n Fe 0.001\n Al 0.001\n Si 0.1\nEND\n"),
 }
 
@@ -67,7 +71,8 @@ _FAM = {"ex1": "speciation", "ex2": "reaction", "ex2b": "reaction", "ex3": "reac
 for _n, _fam in _FAM.items():
     WORK[_n] = dict(db=EXAMPLES[_n][0], text=None, family=_fam, inc=EXAMPLES[_n][1])
 
-FAST = sorted(CUSTOM) + ["ex1", "ex2", "ex2b", "ex3", "ex4", "ex5", "ex7", "ex8", "ex9", "ex16", "ex17", "ex19"]
+C06_ONLY = ["w_longpunch"]
+FAST = sorted(k for k in CUSTOM if k not in C06_ONLY) + ["ex1", "ex2", "ex2b", "ex3", "ex4", "ex5", "ex7", "ex8", "ex9", "ex16", "ex17", "ex19"]
 MEDIUM = FAST + ["ex6", "ex10", "ex13a", "ex14", "ex18", "ex20a", "ex22"]
 FAMILIES = sorted(set(w["family"] for w in WORK.values()))
 
